@@ -56,6 +56,14 @@ def answer (l : String) : String :=
       | some a, some b => ord (Pep440.cmp a b)
       | _, _ => "err"
     | _, _ => "bad-op"
+  | ["peprange", s, t] =>
+    match str s, str t with
+    | some s, some t => match Pep440.parseRange s with
+      | none => "err"
+      | some r => match Pep440.parse t with
+        | none => "verr"
+        | some v => toString (Pep440.rangeMatch r v)
+    | _, _ => "bad-op"
   | ["gem", s] =>
     match str s with
     | none => "bad-op"
